@@ -31,8 +31,13 @@ from . import w3_c12 as W3
 
 SEPARATORS = ('', ' ', '  ')
 STYLES = ('positional', 'short')
+# (sixth wave, C12-m16) the two other spellings float() and the tokenizer's
+# number pattern accept: no digit before the point ('.5', '-.5') and no digit
+# after it ('5.'); offered with the plain separator only
+EXTRA_STYLES = ('nolead', 'trail')
 OLD_SPELLING = (' ', 'positional')
-SPELLINGS = tuple((sep, st) for st in STYLES for sep in SEPARATORS)
+SPELLINGS = tuple((sep, st) for st in STYLES for sep in SEPARATORS) + tuple(
+    (' ', st) for st in EXTRA_STYLES)
 NEW_SPELLINGS = tuple(s for s in SPELLINGS if s != OLD_SPELLING)
 
 
@@ -40,6 +45,14 @@ def spell_number(x, style):
     s = W3.positional(x)
     if style == 'short' and s.endswith('.0'):
         s = s[:-2]
+    elif style == 'nolead':
+        if s.startswith('0.') and s != '0.0':
+            s = s[1:]
+        elif s.startswith('-0.') and s != '-0.0':
+            s = '-' + s[2:]
+    elif style == 'trail':
+        if s.endswith('.0'):
+            s = s[:-1]
     elif style not in STYLES:
         raise ValueError(style)
     return s
